@@ -105,8 +105,36 @@ def grammar(rng, nps):
         for k in (2, 3, 5):
             vals.append(list(nps.uniform(0.2, 3, k - 1)) + [bad])
         vals += [[[1.0, 2.0, 3.0], [1.0, 2.0, bad]], [[0, 0, 0], [1, 0, 0], [0, 1, 0], [0, 0, bad]], [[0, 0, 0], [1, 0, 0], [0, 1, bad]]]
+    # right shape, one entry that np.array(dtype=float) silently coerces: None (-> nan) or a numeric string (-> parsed)
+    for k in (2, 3, 5):
+        vals += [list(nps.uniform(0.2, 3, k - 1)) + [None], list(nps.uniform(0.2, 3, k - 1)) + ["2"]]
+    vals += [[[1.0, 2.0, 3.0], [1.0, None, 3.0]], [[0, 0, 0], [1, 0, 0], [0, 1, 0], [0, 0, "1"]], [[0, 0, 0], [1, 0, 0], [0, None, 0]]]
     rng.shuffle(vals)
     return vals
+
+
+def coerced_leaf(v):
+    """'None' / 'numeric-string' if the nesting v has such a leaf (and no other non-number), else None"""
+    kinds = set()
+
+    def walk(x):
+        if isinstance(x, (list, tuple)):
+            for y in x:
+                walk(y)
+        elif x is None:
+            kinds.add("None")
+        elif isinstance(x, str):
+            try:
+                float(x)
+                kinds.add("numeric-string")
+            except ValueError:
+                kinds.add("other")
+        elif not is_num(x):
+            kinds.add("other")
+    if not isinstance(v, (list, tuple)):
+        return None
+    walk(v)
+    return next(iter(kinds)) if len(kinds) == 1 and "other" not in kinds else None
 
 
 def attributes():
@@ -213,7 +241,10 @@ def sweep(ctx, n_rounds):
                                     report(f"accepted-then-internal-error:{name}", f"accepted {vrepr}, getB then raised {type(e).__name__}", {"attr": name, "value": vrepr})
                         else:
                             stats["rejected"] += 1
-                            if err is None:
+                            if err is None and coerced_leaf(v):
+                                report(f"coerced-entry:{coerced_leaf(v)}", f"value {vrepr} with a {coerced_leaf(v)} entry accepted for {name} (stored {np.asarray(getattr(obj, attr)).tolist()!r})",
+                                       {"attr": name, "value": vrepr, "via": via})
+                            elif err is None:
                                 report(f"malformed-accepted:{name}", f"malformed value {vrepr} accepted via {via}", {"attr": name, "value": vrepr, "via": via})
                             elif err != "BadUserInput":
                                 report(f"foreign-error:{name}:{err}", f"malformed value {vrepr} raised {err} instead of the library's input error (via {via})", {"attr": name, "value": vrepr, "via": via})
